@@ -694,6 +694,18 @@ CORPORA = {
 }
 
 
+def expected_fns(d):
+    """Which methods the emitted impl must define (C09: bare-word form only through a declared word variant)."""
+    if d["kind"] == "enum":
+        fns = {"from_list", "from_string"}
+        if any(v["word"] is True and not v["skip"] for v in d["variants"]):
+            fns.add("from_word")
+        return fns
+    if d["kind"] == "struct":
+        return {"from_list"}
+    return None
+
+
 def units_for(corpus, tier, seed, mode="full", unit_span=False, prefix="l3"):
     """-> [(unit name, template | None, meta)] ready for driver.run_unit (template None = derive did not emit code)."""
     ensure_expander()
@@ -711,6 +723,11 @@ def units_for(corpus, tier, seed, mode="full", unit_span=False, prefix="l3"):
             out.append((uid, None, meta))
             continue
         meta["prepass"] = e["log"]
+        exp = expected_fns(d)
+        if exp is not None:
+            got = set(re.findall(r"^\s*fn (\w+)\s*[(<]", open(e["path"]).read(), re.M)) - {"__validate_body"}
+            if got != exp:
+                meta["interface_mismatch"] = {"expected": sorted(exp), "emitted": sorted(got)}
         out.append((uid, make_unit(uid, d, mode, unit_span), meta))
     return out
 
@@ -758,8 +775,10 @@ def enum_declaration(d):
             a.append(f'rename = {lit(v["rename"])}')
         if v["skip"]:
             a.append("skip")
-        if v["word"]:
+        if v["word"] is True:
             a.append("word")
+        elif v["word"] == "false":
+            a.append("word = false")
         if a:
             out += f"#[darling({', '.join(a)})] "
         if v["style"] == "unit":
@@ -856,7 +875,7 @@ def enum_template(d, gen_id, mode="full"):
     w("}")
     if vnames:
         directives.append(f"    //@ replace R16 @{occ_alts}: unknown_field_with_alts(__other, &[$$]) ==> unknown_field_with_alts(__other, {{ let __alts: &[&str] = &[$1]; proof {{ assert(strs(__alts@) =~= {vnames_seq}); }} __alts }})")
-    wordv = next((v for v in d["variants"] if v["word"]), None)
+    wordv = next((v for v in d["variants"] if v["word"] is True), None)
     w(f"impl<{gen_bounds}> {n}<{tps}> {{")
     w(f"    //@fn @gen:{gen_id}.rs :: impl crate::darling::FromMeta for {n}<{tps}> :: fn from_list")
     w("    #[verifier::loop_isolation(false)]")
@@ -898,6 +917,7 @@ def quick_enums():
         enum_desc("E3", [v("Conf", "struct", fields=[f("items", multiple=True), f("z", skip=True)]), v("Other", "struct", fields=[f("q")])], allow_unknown=True),
         enum_desc("E4", [v("A", skip=True), v("B", skip=True)]),
         enum_desc("E5", [v("LoremIpsum"), v("DolorSit", word=True), v("Amet", "newtype", skip=True)], rename_all="kebab-case"),
+        enum_desc("E6", [v("Strict", word="false"), v("Lax")]),
     ]
 
 
